@@ -277,10 +277,60 @@ def r3(ctx):
     ctx.covered("queue discipline checks", 5, distinct_keys=["fifo", "clear", "drain", "nested", "top"])
 
 
+def _value_sources(hir, locs, e, depth=0):
+    """callees (or other leaf renderings) an expression's value can come from, through locals, unwraps, if / match leaves"""
+    out = set()
+    if depth > 8:
+        return {"?"}
+    e = peel(e, methods=False)
+    while e["k"] == "MCall" and e["m"] in ("unwrap", "expect", "clone", "as_str", "to_string", "to_owned", "as_ref", "unwrap_or_default", "as_path", "to_path_buf", "into"):
+        e = peel(e["recv"], methods=False)
+    if e["k"] == "Path" and e.get("rk") == "Local":
+        d = locs.defs.get(e["res"]) or (locs.payload_defs.get(e["res"]) if hasattr(locs, "payload_defs") else None)
+        if d is None:
+            return {"local:" + str(e.get("name"))}
+        return _value_sources(hir, locs, d, depth + 1)
+    if e["k"] in ("If", "Match", "Block"):
+        def branch_values(x):
+            x = peel(x, methods=False)
+            if x["k"] == "Block":
+                if diverges(x) or "expr" not in x:
+                    return []
+                return branch_values(x["expr"])
+            if x["k"] == "If":
+                return branch_values(x["t"]) + (branch_values(x["e"]) if "e" in x else [])
+            if x["k"] == "Match":
+                return [v for a in x["arms"] for v in branch_values(a["body"])]
+            if x["k"] in ("Ret", "Break", "Continue", "InlRet"):
+                return []
+            return [x]
+        for leaf in branch_values(e):
+            out |= _value_sources(hir, locs, leaf, depth + 1)
+        return out or {"?"}
+    if e["k"] == "Call":
+        if e.get("ctor") and e["args"]:
+            return _value_sources(hir, locs, e["args"][0], depth + 1)
+        return {str(e.get("callee"))}
+    if e["k"] == "MCall":
+        return {"." + e["m"]}
+    return {render(e)[:40]}
+
+
 def r4(ctx):
     """sibling agreement of the recursive calls and parameter provenance"""
     hir = ctx.anchor_hir(VISIT_DIR)
     ps = params(ctx, VISIT_DIR)
+    # the depth of a directory is counted on its canonical path: every calc_depth argument comes from util::canonical_path
+    locs0 = Locals(hir)
+    for c in walk_exprs(hir):
+        if c["k"] == "Call" and str(c.get("callee", "")).endswith("util::calc_depth"):
+            src = _value_sources(hir, locs0, c["args"][0])
+            ok = src == {"util::canonical_path"}
+            ctx.obligation(ok)
+            if not ok:
+                ctx.violation("depth/source", ctx.where(VISIT_DIR, c),
+                              "the nesting depth must be counted on the canonical path of the directory (util::canonical_path); here it can also come from %s: "
+                              "another spelling of the same directory (trailing separator, `..`, a link) has another number of separators" % sorted(src - {"util::canonical_path"}))
     rec = [c for c in walk_exprs(hir) if c["k"] == "MCall" and c["m"] == "visit_dir"]
     n = 0
     for c in rec:
